@@ -35,3 +35,8 @@ Definition run (v : variant) (ps : list piece) (dv dd : list float) (k : nat) (e
   let '(conv, x, i, calls) :=
     scalar_newton_raphson fops v (pw ps dv dd) (crit k e1 e2 n) {| x0 := x0; im := im; xmin0 := a; xmax0 := b |} in
   (conv, x, Z.of_nat i, rev calls).
+
+(* one case as a tuple (the check feeds lists of these to `map (run1 v)`) *)
+Definition case := (list piece * list float * list float * nat * float * float * nat * float * nat * float * float)%type.
+Definition run1 (v : variant) (cs : case) :=
+  let '(ps, dv, dd, k, e1, e2, n, x0, im, a, b) := cs in run v ps dv dd k e1 e2 n x0 im a b.
